@@ -437,52 +437,59 @@ Section Facts.
       Qed.
 
       (* ---------------------------------------------------------------- 4. soundness *)
+      (* whatever the result (also when an exception propagates): the invariants survive; an Ok result is the
+         specification's value *)
       Definition sound_at (n : nat) : Prop :=
-        forall st o st' v, inv st -> aget kw o = None -> RUN n st o = (st', Ok v) ->
-                           EvalOk o v /\ inv st' /\ dom_le st st'.
+        forall st o st' r, inv st -> aget kw o = None -> RUN n st o = (st', r) ->
+                           inv st' /\ dom_le st st' /\ forall v, r = Ok v -> EvalOk o v.
 
-      Lemma inv_use st k : inv (x_use st k) <-> inv st.
-      Proof. reflexivity. Qed.
-
-      Lemma sound_resolve n f st cur st1 v : sound_at n -> inv st ->
-        cresolve p kw (RUN n) f st cur = (st1, Ok v) -> inv st1 /\ dom_le st st1 /\ arg_ok f cur v.
+      Lemma sound_resolve n f st cur st1 rv : sound_at n -> inv st ->
+        cresolve p kw (RUN n) f st cur = (st1, rv) ->
+        inv st1 /\ dom_le st st1 /\ forall v, rv = Ok v -> arg_ok f cur v.
       Proof.
         intros IH Hi H. unfold cresolve in H. unfold arg_ok, arg_val.
         destruct (aget (bound f) cur) as [b|] eqn:Eb.
-        { injection H as <- <-. split; [exact Hi | split; [apply dom_le_refl | now exists 0]]. }
+        { injection H as <- <-. split; [exact Hi | split; [apply dom_le_refl|]]. intros v Hv. injection Hv as <-. now exists 0. }
         destruct (aget kw cur) as [w|] eqn:Ek.
-        { injection H as <- <-. split; [exact Hi | split; [apply dom_le_refl | now exists 0]]. }
+        { injection H as <- <-. split; [exact Hi | split; [apply dom_le_refl|]]. intros v Hv. injection Hv as <-. now exists 0. }
         destruct (is_output p cur) eqn:Eo.
-        { destruct (IH st cur st1 v Hi Ek H) as [[m Hm] [Hi1 Hd]]. split; [exact Hi1 | split; [exact Hd | now exists m]]. }
-        destruct (pdefault p cur) as [d|] eqn:Ed; [|discriminate].
-        injection H as <- <-. split; [exact Hi | split; [apply dom_le_refl|]].
-        exists 0. rewrite <- (pdefault_eq p cur CONS). now rewrite Ed.
+        { destruct (IH st cur st1 rv Hi Ek H) as [Hi1 [Hd He]]. split; [exact Hi1 | split; [exact Hd|]].
+          intros v Hv. destruct (He v Hv) as [m Hm]. now exists m. }
+        destruct (pdefault p cur) as [d|] eqn:Ed.
+        - injection H as <- <-. split; [exact Hi | split; [apply dom_le_refl|]]. intros v Hv. injection Hv as <-.
+          exists 0. rewrite <- (pdefault_eq p cur CONS). now rewrite Ed.
+        - injection H as <- <-. split; [exact Hi | split; [apply dom_le_refl|]]. intros v Hv. discriminate.
       Qed.
 
-      Lemma sound_args n f : sound_at n -> forall ps st acc st' args, inv st ->
-        ARGS (RUN n) f ps st acc = (st', Ok args) ->
+      Lemma sound_args n f : sound_at n -> forall ps st acc st' ra, inv st ->
+        ARGS (RUN n) f ps st acc = (st', ra) ->
         inv st' /\ dom_le st st'
-        /\ exists vs, args = acc ++ vs
-                      /\ Forall2 (fun (po ov : str * str) => fst ov = snd po /\ arg_ok f (fst po) (snd ov)) ps vs.
+        /\ forall args, ra = Ok args ->
+             exists vs, args = acc ++ vs
+                        /\ Forall2 (fun (po ov : str * str) => fst ov = snd po /\ arg_ok f (fst po) (snd ov)) ps vs.
       Proof.
-        intros IH. induction ps as [|[cur orig] t IHt]; intros st acc st' args Hi H.
+        intros IH. induction ps as [|[cur orig] t IHt]; intros st acc st' ra Hi H.
         - cbn in H. injection H as <- <-. split; [exact Hi | split; [apply dom_le_refl|]].
-          exists []. split; [now rewrite app_nil_r | constructor].
+          intros args Ha. injection Ha as <-. exists []. split; [now rewrite app_nil_r | constructor].
         - rewrite cget_args_cons in H. destruct (cresolve p kw (RUN n) f st cur) as [st1 rv] eqn:Er.
-          destruct rv as [v|e]; [|discriminate].
-          destruct (sound_resolve n f st cur st1 v IH Hi Er) as [Hi1 [Hd1 Ha]].
-          destruct (IHt (x_use st1 cur) (acc ++ [(orig, v)]) st' args Hi1 H) as [Hi2 [Hd2 [vs [Hargs Hf2]]]].
-          split; [exact Hi2 | split].
-          + intros x Hx. apply Hd2. cbn. now apply Hd1.
-          + exists ((orig, v) :: vs). split; [now rewrite Hargs, <- app_assoc|]. constructor; [|assumption]. now split.
+          destruct (sound_resolve n f st cur st1 rv IH Hi Er) as [Hi1 [Hd1 Ha]].
+          destruct rv as [v|e].
+          + destruct (IHt (x_use st1 cur) (acc ++ [(orig, v)]) st' ra Hi1 H) as [Hi2 [Hd2 Hf2]].
+            split; [exact Hi2 | split].
+            * intros x Hx. apply Hd2. cbn. now apply Hd1.
+            * intros args Hargs. destruct (Hf2 args Hargs) as [vs [E Hf]].
+              exists ((orig, v) :: vs). split; [now rewrite E, <- app_assoc|]. constructor; [|assumption].
+              split; [reflexivity | now apply Ha].
+          + injection H as <- <-. split; [exact Hi1 | split; [exact Hd1|]]. intros args Hargs. discriminate.
       Qed.
 
       Lemma sound_args_raw n f st st' args : sound_at n -> inv st ->
         ARGS (RUN n) f (params f) st [] = (st', Ok args) ->
         inv st' /\ dom_le st st' /\ exists m, args_with (eval body pick m p kw) p kw f = Ok args.
       Proof.
-        intros IH Hi H. destruct (sound_args n f IH (params f) st [] st' args Hi H) as [Hi' [Hd [vs [Ha Hf]]]].
-        cbn in Ha. subst vs. split; [exact Hi' | split; [exact Hd|]]. exact (args_combine f _ _ Hf).
+        intros IH Hi H. destruct (sound_args n f IH (params f) st [] st' (Ok args) Hi H) as [Hi' [Hd Hf]].
+        destruct (Hf args eq_refl) as [vs [Ha Hf2]].
+        cbn in Ha. subst vs. split; [exact Hi' | split; [exact Hd|]]. exact (args_combine f _ _ Hf2).
       Qed.
 
       (* facts about a key that was computed *)
@@ -507,10 +514,10 @@ Section Facts.
           now rewrite <- (key_raw kw rv f ra Hfp Hsup Hroot Hit m f Hfr).
       Qed.
 
-      Lemma sound_hit n st o f ra k ov c1 st' v : sound_at n -> inv st -> aget kw o = None ->
+      Lemma sound_hit n st o f ra k ov c1 st' r0 : sound_at n -> inv st -> aget kw o = None ->
         producer p o = Some f -> root_args p o = Ok ra -> the_key f ra = Some k ->
         cmem P (xc st) k = true -> cget P (xc st) k = (ov, c1) ->
-        hit_branch n st o f ov c1 = (st', Ok v) -> EvalOk o v /\ inv st' /\ dom_le st st'.
+        hit_branch n st o f ov c1 = (st', r0) -> inv st' /\ dom_le st st' /\ forall v, r0 = Ok v -> EvalOk o v.
       Proof.
         intros IH [Hres Hc] Hko Hf Hra Hk Hm Hg H.
         apply producer_In in Hf as Hf'. destruct Hf' as [Hfp Ho].
@@ -523,32 +530,36 @@ Section Facts.
         assert (Hd1 : forall x, aget (xres st) x <> None -> aget (update_all_results pick f r (xres st)) x <> None)
           by (intros x; apply upd_dom).
         destruct (negb full).
-        - cbn in H. injection H as <- Hv. unfold out_of in Hv.
+        - cbn in H. injection H as <- <-.
+          split; [split; [exact Hres1 | exact Hc1] | split; [exact Hd1|]].
+          intros v Hv. unfold out_of in Hv. cbn in Hv.
           destruct (aget (update_all_results pick f r (xres st)) o) as [v0|] eqn:Ev; [|discriminate].
-          injection Hv as <-.
-          split; [now apply (res_ok_get _ o v0 Hres1) | split; [split; [exact Hres1 | exact Hc1] | exact Hd1]].
+          injection Hv as <-. now apply (res_ok_get _ o v0 Hres1).
         - cbn [x_c x_res xres] in H.
-          destruct (ARGS (RUN n) f (params f) _ []) as [st2 ra2] eqn:Ea in H. destruct ra2 as [args|e]; [|discriminate].
-          injection H as <- Hv.
+          destruct (ARGS (RUN n) f (params f) _ []) as [st2 ra2] eqn:Ea in H.
           assert (Hi1 : inv (x_res (x_c st c1) (update_all_results pick f r (xres st))))
             by (split; [exact Hres1 | exact Hc1]).
-          destruct (sound_args_raw n f _ st2 args IH Hi1 Ea) as [Hi2 [Hd2 _]].
+          destruct (sound_args n f IH _ _ _ st2 ra2 Hi1 Ea) as [Hi2 [Hd2 _]].
+          assert (Hd : dom_le st st2) by (intros x Hx; apply Hd2; cbn; now apply Hd1).
+          destruct ra2 as [args|e]; injection H as <- <-; (split; [exact Hi2 | split; [exact Hd|]]); intros v Hv; [|discriminate].
           unfold out_of in Hv. destruct (aget (xres st2) o) as [v0|] eqn:Ev; [|discriminate]. injection Hv as <-.
-          split; [now apply (res_ok_get _ o v0 (proj1 Hi2)) | split; [exact Hi2|]].
-          intros x Hx. apply Hd2. cbn. now apply Hd1.
+          now apply (res_ok_get _ o v0 (proj1 Hi2)).
       Qed.
 
-      Lemma sound_miss n st o f ra st' v : sound_at n -> inv st -> aget kw o = None ->
+      Lemma sound_miss n st o f ra st' r0 : sound_at n -> inv st -> aget kw o = None ->
         producer p o = Some f -> root_args p o = Ok ra ->
-        miss_branch n st o f (the_key f ra) = (st', Ok v) -> EvalOk o v /\ inv st' /\ dom_le st st'.
+        miss_branch n st o f (the_key f ra) = (st', r0) -> inv st' /\ dom_le st st' /\ forall v, r0 = Ok v -> EvalOk o v.
       Proof.
         intros IH Hi Hko Hf Hra H. apply producer_In in Hf as Hf'. destruct Hf' as [Hfp Ho].
         unfold miss_branch in H.
-        destruct (ARGS (RUN n) f (params f) st []) as [st1 ra1] eqn:Ea. destruct ra1 as [args|e]; [|discriminate].
-        destruct (sound_args_raw n f st st1 args IH Hi Ea) as [[Hres1 Hc1] [Hd1 [m Hm]]].
-        destruct (body (fname f) args) as [r|e] eqn:Eb; [|discriminate].
+        destruct (ARGS (RUN n) f (params f) st []) as [st1 ra1] eqn:Ea.
+        destruct (sound_args n f IH _ _ _ st1 ra1 Hi Ea) as [Hi1 [Hd1 _]].
+        destruct ra1 as [args|e]; [|injection H as <- <-; split; [exact Hi1 | split; [exact Hd1 | intros v Hv; discriminate]]].
+        destruct (sound_args_raw n f st st1 args IH Hi Ea) as [[Hres1 Hc1] [_ [m Hm]]].
+        destruct (body (fname f) args) as [r|e] eqn:Eb;
+          [|injection H as <- <-; split; [exact Hi1 | split; [exact Hd1 | intros v Hv; discriminate]]].
         assert (Hraw : RawOk f r) by (exists m; unfold eval_raw; now rewrite Hm).
-        injection H as <- Hv. cbn [xres xc x_res x_log x_c] in *.
+        injection H as <- <-. cbn [xres xc x_res x_log x_c] in *.
         set (st3 := match the_key f ra with Some k => _ | None => _ end) in *.
         assert (E3 : xres st3 = xres st1) by (subst st3; destruct (the_key f ra); reflexivity).
         assert (Hc3 : cache_inv (xc st3)).
@@ -557,25 +568,29 @@ Section Facts.
         rewrite E3 in *.
         assert (Hres' : res_ok (update_all_results pick f r (xres st1))).
         { apply upd_res_ok; try assumption. now apply (single_requested f o). }
-        unfold out_of in Hv. destruct (aget (update_all_results pick f r (xres st1)) o) as [v0|] eqn:Ev; [|discriminate].
-        injection Hv as <-.
-        split; [now apply (res_ok_get _ o v0 Hres') | split; [split; [exact Hres' | exact Hc3]|]].
-        intros x Hx. cbn. apply upd_dom. now apply Hd1.
+        split; [split; [exact Hres' | exact Hc3] | split].
+        - intros x Hx. cbn. apply upd_dom. now apply Hd1.
+        - intros v Hv. unfold out_of in Hv.
+          destruct (aget (update_all_results pick f r (xres st1)) o) as [v0|] eqn:Ev; [|discriminate].
+          injection Hv as <-. now apply (res_ok_get _ o v0 Hres').
       Qed.
 
       Lemma sound : forall n, sound_at n.
       Proof.
-        induction n as [|n IH]; intros st o st' v Hi Hko H; [discriminate|].
+        induction n as [|n IH]; intros st o st' r Hi Hko H.
+        { cbn in H. injection H as <- <-. split; [exact Hi | split; [apply dom_le_refl | intros v Hv; discriminate]]. }
         rewrite crun_out_S in H. destruct (aget (xres st) o) as [v0|] eqn:Eres.
-        { injection H as <- <-.
-          split; [now apply (res_ok_get _ o v0 (proj1 Hi)) | split; [exact Hi | apply dom_le_refl]]. }
-        destruct (producer p o) as [f|] eqn:Hf; [|discriminate].
-        destruct (root_args p o) as [ra|e] eqn:Hra; [|discriminate].
+        { injection H as <- <-. split; [exact Hi | split; [apply dom_le_refl|]]. intros v Hv. injection Hv as <-.
+          now apply (res_ok_get _ o v0 (proj1 Hi)). }
+        destruct (producer p o) as [f|] eqn:Hf;
+          [|injection H as <- <-; split; [exact Hi | split; [apply dom_le_refl | intros v Hv; discriminate]]].
+        destruct (root_args p o) as [ra|e] eqn:Hra;
+          [|injection H as <- <-; split; [exact Hi | split; [apply dom_le_refl | intros v Hv; discriminate]]].
         unfold run_func in H. destruct (found_of st (the_key f ra)) as [[ov c1]|] eqn:Efound.
         - unfold found_of in Efound. destruct (the_key f ra) as [k|] eqn:Ek; [|discriminate].
           destruct (cmem P (xc st) k) eqn:Em; [|discriminate]. injection Efound as Eg.
-          now apply (sound_hit n st o f ra k ov c1 st' v IH Hi Hko Hf Hra Ek Em Eg).
-        - now apply (sound_miss n st o f ra st' v IH Hi Hko Hf Hra).
+          now apply (sound_hit n st o f ra k ov c1 st' r IH Hi Hko Hf Hra Ek Em Eg).
+        - now apply (sound_miss n st o f ra st' r IH Hi Hko Hf Hra).
       Qed.
 
       (* ---------------------------------------------------------------- 5. completeness *)
@@ -609,7 +624,7 @@ Section Facts.
             - apply (IH st cur v Hi Ek); [now exists m|]. pose proof (rk_up o f cur Hf Hc Eb Eo). lia.
             - rewrite <- (pdefault_eq p cur CONS) in Hv. destruct (pdefault p cur); [eauto | discriminate]. }
           destruct Hres as [st1 [v1 Hr]]. rewrite Hr.
-          destruct (sound_resolve n f st cur st1 v1 (sound n) Hi Hr) as [Hi1 _].
+          destruct (sound_resolve n f st cur st1 (Ok v1) (sound n) Hi Hr) as [Hi1 _].
           apply IHt; [exact Hi1 | |].
           + intros x Hx. apply Hincl. now right.
           + intros x Hx. apply Hargs. now right.
@@ -663,8 +678,8 @@ Section Facts.
         exists st', RUN n st o = (st', Ok v) /\ inv st' /\ dom_le st st'.
       Proof.
         intros Hi Hko He Hrk. destruct (complete_ok n st o v Hi Hko He Hrk) as [st' [v' H]].
-        destruct (sound n st o st' v' Hi Hko H) as [He' [Hi' Hd]].
-        rewrite (EvalOk_det o v v' He He'). eauto.
+        destruct (sound n st o st' (Ok v') Hi Hko H) as [Hi' [Hd He']].
+        rewrite (EvalOk_det o v v' He (He' v' eq_refl)). eauto.
       Qed.
 
       (* ---------------------------------------------------------------- 6a. xhit is monotone; frame property *)
@@ -795,7 +810,7 @@ Section Facts.
                          stc' rac Hc E) in Hh. discriminate.
             - injection Hc as <- _. congruence. }
           assert (Hstep : rvc = Ok vu /\ simR X stc1 stu1 /\ INV stc1 /\ INV stu1).
-          { pose proof (sound_resolve kw full false n f stu cur stu1 vu (sound kw full false n) Hiu Eru) as [Hiu1 _].
+          { pose proof (sound_resolve kw full false n f stu cur stu1 (Ok vu) (sound kw full false n) Hiu Eru) as [Hiu1 _].
             unfold cresolve in Erc, Eru. destruct (aget (bound f) cur) eqn:Eb.
             { injection Erc as <- <-. injection Eru as <- <-. auto. }
             destruct (aget kw cur) eqn:Ek.
@@ -804,7 +819,7 @@ Section Facts.
             - assert (HX' : forall x, In x X -> RK cur < RK x).
               { intros x Hx. pose proof (HX x Hx). pose proof (rk_up o f cur Hf Hcur Eb Eo). lia. }
               destruct (IH X stc stu cur stc1 rvc stu1 vu HR HX' Hic Hiu Ek Erc Eru Hh1) as [-> HR1].
-              pose proof (sound kw full true n stc cur stc1 vu Hic Ek Erc) as [_ [Hic1 _]]. auto.
+              pose proof (sound kw full true n stc cur stc1 (Ok vu) Hic Ek Erc) as [Hic1 _]. auto.
             - destruct (pdefault p cur); [|discriminate]. injection Erc as <- <-. injection Eru as <- <-. auto. }
           destruct Hstep as [-> [HR1 [Hic1 Hiu1]]]. cbn beta iota in Hc, Hu.
           apply (IHt (fun y Hy => Hincl y (or_intror Hy)) X (x_use stc1 cur) (x_use stu1 cur) (acc ++ [(orig, vu)])
